@@ -12,11 +12,22 @@ type ContextSettings struct {
 
 type ContextApply func(c *ContextSettings)
 
+type principalNodeType int
+
+const (
+	elementNodeType principalNodeType = iota
+	attributeNodeType
+	namespaceNodeType
+)
+
 type exprContext struct {
-	root             store.Cursor
-	result           Result
-	contextPosition  int
-	builtinFunctions map[XmlName]Function
+	root            store.Cursor
+	result          Result
+	contextPosition int
+	// principalNodeType is the principal node type of the axis of the step
+	// whose node test is being evaluated.
+	principalNodeType principalNodeType
+	builtinFunctions  map[XmlName]Function
 	ContextSettings
 }
 
